@@ -55,22 +55,28 @@ func notKey(sub string, keep func(*core.Obligation) bool) func(*core.Obligation)
 // Defs returns the final rule sets.
 func Defs() []driver.PropDef {
 	return []driver.PropDef{
-		wrap(c01.Def, "X1 the end-of-file check returns success only after the two CRC values were found equal.", func(c *core.Ctx) {
+		wrap(c01.Def, "X1 the end-of-file check returns success only after the two CRC values were found equal; X2 LZF back references (compressed key names, scripts) are copied in ascending byte order, never by an overlapping block copy; X3 integer-encoded strings are the sign-extended little-endian value of all bytes of one read.", func(c *core.Ctx) {
 			xtra.FooterRejectsEveryMismatch(c, "X1.footer")
+			arith.OverlapSafeCopy(c, "X2.lzf", c.Func("pkg/rdb", "", "lzfDecompress"))
+			intStringsReader(c, "X3.ints")
 		}),
-		wrap(c02.Def, "X1 SCRIPT LOAD is executed with Do and its error returned.", func(c *core.Ctx) {
+		wrap(c02.Def, "X1 SCRIPT LOAD is executed with Do and its error returned; X2 float64 scores are formatted with bitSize 64.", func(c *core.Ctx) {
 			xtra.ScriptLoadByDo(c, "X1.script")
+			xtra.FormatFloatFullPrecision(c, "X2.score", "redis-shake/common")
+			intsetRestore(c, "X3.ints")
 		}),
-		wrap(c03.Def, "X1 every test of the fixed-target-database option uses the sentinel -1 (db 0 is a legal fixed target); X2 no blocking channel send on the sender's path; X3 the key-filter verdict tested for a command was computed for that command; C10's rule that decoded arguments never alias the reader's buffer (they are queued until the next flush) is re-run here.", func(c *core.Ctx) {
+		wrap(c03.Def, "X1 every test of the fixed-target-database option uses the sentinel -1 (db 0 is a legal fixed target); X2 no blocking channel send on the sender's path; X3 the key-filter verdict tested for a command was computed for that command; C10's rules that decoded arguments never alias the reader's buffer (they are queued until the next flush) and that the decoder's offset counts every byte it consumes (the offset stamps the commands), and C06's matcher rules (which list is consulted with which matcher) are re-run here.", func(c *core.Ctx) {
 			xtra.TargetDBSentinel(c, "X1.sentinel", dbSync)
 			xtra.SenderNeverBlocks(c, "X2.nonblocking")
 			xtra.VerdictFresh(c, "X3.verdict")
-			xtra.Import(c, "C10", c10.Run, xtra.HasPrefix("R8.alias/"))
+			xtra.Import(c, "C10", c10.Run, xtra.HasPrefix("R8.alias/", "R1.account/"))
+			xtra.Import(c, "C06", c06.Run, xtra.HasPrefix("R2.matcher/"))
 		}),
-		wrap(c04.Def, "X1 the MULTI/EXEC+checkpoint envelope is skipped only for a batch that is a lone PING; X2 all checkpoint HSETs go to ds.checkpointName, the hash the loader reads; C14's field-name agreement rules (reader/writer) are re-run here.", func(c *core.Ctx) {
+		wrap(c04.Def, "X1 the MULTI/EXEC+checkpoint envelope is skipped only for a batch that is a lone PING; X2 all checkpoint HSETs go to ds.checkpointName, the hash the loader reads; C14's field-name agreement rules (reader/writer) and C10's byte-accounting rule of the decoder (the stored offset is the decoder's) are re-run here.", func(c *core.Ctx) {
 			xtra.EnvelopeOnlyOmittedForLonePing(c, "X1.envelope")
 			xtra.CheckpointHsetsSameKey(c, "X2.hash-key")
 			xtra.Import(c, "C14", c14.Run, xtra.HasPrefix("R1.reader/", "R1.writer/", "R5.clear/"))
+			xtra.Import(c, "C10", c10.Run, xtra.HasPrefix("R1.account/"))
 		}),
 		c05.Def,
 		wrap(c06.Def, "X1 the verdict tested for a command was computed for that command; X2 fixed-target-db sentinel; C15's hash-tag rules (the slot filter of the full phase hashes with KeyToSlot) and C13's caller rules (the incremental path forwards the filtered argument vector) are re-run here.", func(c *core.Ctx) {
@@ -83,19 +89,26 @@ func Defs() []driver.PropDef {
 			xtra.ScriptLoadByDo(c, "X1.script")
 			xtra.RestoreMainWaitGroup(c, "X2.waitgroup")
 			xtra.TargetDBSentinel(c, "X3.sentinel", dbSync, run)
-			xtra.Import(c, "C02", c02.Run, notKey("element/consults-policy", xtra.HasPrefix("R1.route/", "R2.ttl/", "R3.policy/")))
+			xtra.FormatFloatFullPrecision(c, "X4.score", "redis-shake/common")
+			intsetRestore(c, "X5.ints")
+			xtra.Import(c, "C02", c02.Run, notKey("element/consults-policy", xtra.HasPrefix("R1.route/", "R2.ttl/", "R3.policy/", "R5.batch/flushAndCheckReply", "R6.errors/")))
 		}),
-		wrap(c08.Def, "X1 the ACK goroutine ends when its ACK cannot be sent; C04's stored-offset and PSYNC-continue rules are re-run here.", func(c *core.Ctx) {
+		wrap(c08.Def, "X1 the ACK goroutine ends when its ACK cannot be sent; C04's stored-offset and PSYNC-continue rules and C10's byte-accounting rule of the decoder are re-run here.", func(c *core.Ctx) {
 			xtra.AckGoroutineStopsOnError(c, "X1.ack-stops")
 			xtra.Import(c, "C04", c04.Run, notKey("base-writer", xtra.HasPrefix("R2.offset/", "R5.resume/SendPSyncContinue")))
+			xtra.Import(c, "C10", c10.Run, xtra.HasPrefix("R1.account/"))
 		}),
 		c09.Def,
 		c10.Def,
-		wrap(c11.Def, "X1 the end-of-file check returns success only after the two CRC values were found equal.", func(c *core.Ctx) {
+		wrap(c11.Def, "X1 the end-of-file check returns success only after the two CRC values were found equal; C01's rule that a fixed-width read fills exactly the bytes it decodes (the stored checksum is read by readUint64) is re-run here.", func(c *core.Ctx) {
 			xtra.FooterRejectsEveryMismatch(c, "X1.footer")
+			xtra.Import(c, "C01", c01.Run, xtra.HasPrefix("R8.width/"))
 		}),
 		wrap(c12.Def, "X1 the integer arms of both ziplist entry decoders are decided directly in a bit-field domain (width, byte order, sign extension).", func(c *core.Ctx) {
 			arith.CheckZiplistInts(c, "X1.ziplist")
+			arith.CheckLZFCopies(c, "X2.lzf")
+			intStringsReader(c, "X3.ints")
+			intStringsDecoder(c, "X3.ints")
 		}),
 		wrap(c13.Def, "X1 the verdict tested for a command was computed for that command.", func(c *core.Ctx) {
 			xtra.VerdictFresh(c, "X1.verdict")
@@ -104,18 +117,24 @@ func Defs() []driver.PropDef {
 			xtra.ClearAfterRunIdGate(c, "X1.clear-order")
 			xtra.CheckpointHsetsSameKey(c, "X2.hash-key")
 		}),
-		wrap(c15.Def, "C06's decision table of FilterKey (checkpoint-prefixed keys are filtered under every list configuration) is re-run here.", func(c *core.Ctx) {
+		wrap(c15.Def, "C06's decision table of FilterKey (checkpoint-prefixed keys are filtered under every list configuration) is re-run here; X1 the test for 'this source is a cluster shard' uses the sentinel -1 (slot 0 is a legal left boundary).", func(c *core.Ctx) {
 			xtra.Import(c, "C06", c06.Run, xtra.HasPrefix("R1.table/FilterKey/"))
+			xtra.SlotBoundarySentinel(c, "X1.sentinel", dbSync)
 		}),
 		wrap(c16.Def, "X1 the key-file scanner evaluates Scan() last and stores every line; X2 every iteration of the fetch loop reaches the EndNode test; X3 fixed-target-db sentinel; C02's element-expansion and batch rules (big keys are expanded by restoreBigRdbEntry) are re-run here.", func(c *core.Ctx) {
 			xtra.KeyFileScannerLoop(c, "X1.keyfile")
 			xtra.FetchLoopReachesEndNode(c, "X2.endnode")
 			xtra.TargetDBSentinel(c, "X3.sentinel", run, "redis-shake/common")
+			xtra.FormatFloatFullPrecision(c, "X4.score", "redis-shake/common")
+			intsetRestore(c, "X5.ints")
 			xtra.Import(c, "C02", c02.Run, xtra.HasPrefix("R4.expand/", "R5.batch/", "R8.siblings/"))
 		}),
 		wrap(c17.Def, "C12's decoder rules (grammar per value type, event wiring, adaptor, sibling arithmetic) are re-run here: decode mode prints what DecodeDump yields; X1 the integer arms of both ziplist entry decoders are decided directly (width, byte order, sign extension).", func(c *core.Ctx) {
 			xtra.Import(c, "C12", c12.Run, xtra.HasPrefix("R2.grammar/readObject", "R3.wiring/decoder", "R3.wiring/adaptor", "R6.siblings/", "R6.length/", "R1.ids/decoder"))
 			arith.CheckZiplistInts(c, "X1.ziplist")
+			arith.CheckLZFCopies(c, "X2.lzf")
+			intStringsReader(c, "X3.ints")
+			intStringsDecoder(c, "X3.ints")
 		}),
 		c18.Def,
 		c19.Def,
@@ -124,4 +143,18 @@ func Defs() []driver.PropDef {
 			xtra.ConnUsedOnlyAfterErrCheck(c, "X2.conn-nil")
 		}),
 	}
+}
+
+// intStrings: the integer encodings of RDB strings (keys and values) and of intset members.
+func intStringsReader(c *core.Ctx, rule string) {
+	arith.SignedIntsOfReads(c, rule, c.Func("pkg/rdb", "rdbReader", "ReadString"), nil, "int-encodings", 1)
+}
+
+func intStringsDecoder(c *core.Ctx, rule string) {
+	arith.SignedIntsOfReads(c, rule, c.Func("pkg/libs/cupcake/rdb", "decode", "readString"), nil, "int-encodings", 1)
+	arith.SignedIntsOfReads(c, rule, c.Func("pkg/libs/cupcake/rdb", "decode", "readIntset"), nil, "intset-members", 1)
+}
+
+func intsetRestore(c *core.Ctx, rule string) {
+	arith.SignedIntsOfReads(c, rule, c.Func("redis-shake/common", "", "restoreBigRdbEntry"), nil, "intset-members", 1)
 }
